@@ -13,6 +13,7 @@ LOCK_TYPES = ["Condition"]
 
 OPAQUE_METHODS = {
     ("Condition", "notify_all"): dict(ret="None", pure=False),
+    ("Condition", "notify"): dict(ret="None", pure=False),
 }
 
 MODULE_FNS = {
